@@ -156,6 +156,18 @@ def _case_(args, extra):
         with guarded(10):
             rec['embedded'] = canon(emb.parse(text))
             rec['after'] = canon(T().transform(tree))
+            # history: an instance is used once with only part of its callbacks, the others are attached to the instance afterwards (what
+            # merge_transformers() and ast_utils.create_transformer() do: setattr on the instance), then it is used again — as a transformer
+            # after the parse and embedded in a parser; it must behave like an instance that had all callbacks from the start
+            part_n, part_t = names[:len(names) // 2], tnames[:len(tnames) // 2]
+            Tp = make_transformer(Transformer, part_n, part_t, style, none_names=none_names, none_tnames=none_tnames)
+            tp, full = Tp(), T()
+            tp.transform(copy.deepcopy(tree))
+            for n_ in names + tnames:
+                if n_ not in part_n and n_ not in part_t:
+                    setattr(tp, n_, getattr(full, n_))
+            rec['after_late'] = canon(tp.transform(copy.deepcopy(tree)))
+            rec['late_attached'] = [n_ for n_ in names + tnames if n_ not in part_n and n_ not in part_t]
         # the model's inputs
         forest, nodes, toks = shapelib.to_forest(raw, plain, opts['maybe_placeholders'])
         rec['forest'] = forest
@@ -243,6 +255,9 @@ def run(ctx, res):
                 res.corr_break('driver: buildListT differs from map trV buildList (hypothesis D.Plain violated?)', where)
             if r['embedded'] != r['after']:
                 res.violation('Lark(transformer=T).parse(text) != T.transform(Lark().parse(text))', dict(where, embedded=r['embedded'], after=r['after']))
+            elif r.get('after_late') is not None and r['after_late'] != r['after']:
+                res.count('late_attached_histories')
+                res.violation('a transformer instance that was used once before the rest of its callbacks were attached to it (as merge_transformers does) does not transform like an instance that had them from the start — and so not like the embedded transformer', dict(where, late_attached=r['late_attached'], instance_with_history=r['after_late'], fresh_instance=r['after']))
             elif r['embedded'] != me:
                 res.violation('embedded/after results agree with each other but not with the verified model of the callback chain', dict(where, code=r['embedded'], model=me))
         else:
